@@ -536,9 +536,21 @@ func (h *hstream) exec(actor string, ops []Op) (bool, error) {
 			h.ts.W.Gate(op.N).Wait(h.ctx)
 			evReturn(h.rpc, actor, OpPause, op.N, nil)
 		case OpProbe:
-			hi := handlerInfo(h.ts, h.ctx, "")
 			evInvoke(h.rpc, actor, OpProbe, 0, 0)
-			evReturn(h.rpc, actor, OpProbe, 0, &OpResult{Extra: map[string]any{"info": hi}})
+			hi := handlerInfo(h.ts, h.ctx, "")
+			// mutate what the accessor returned, in place and by adding keys ...
+			md1, _ := grpctunnel.TunnelMetadataFromIncomingContext(h.ctx)
+			for k, vs := range md1 {
+				for i := range vs {
+					vs[i] = "MUTATED-BY-RPC-" + strconv.Itoa(h.rpc)
+				}
+				md1[k] = vs
+			}
+			md1["added-by-rpc"] = []string{strconv.Itoa(h.rpc)}
+			simrt.Yield(simrt.ClassApp)
+			// ... and read again
+			md2, ok2 := grpctunnel.TunnelMetadataFromIncomingContext(h.ctx)
+			evReturn(h.rpc, actor, OpProbe, 0, &OpResult{Extra: map[string]any{"info": hi, "tunnel_md_again": md2.Copy(), "tunnel_md_again_ok": ok2}})
 		case OpReturn:
 			evInvoke(h.rpc, actor, OpReturn, 0, 0)
 			if op.St == nil || op.St.Code == 0 {
@@ -829,6 +841,22 @@ func (c *cstream) exec(actor string, ops []Op) {
 			evInvoke(p.ID, actor, OpPause, op.N, 0)
 			c.w.Gate(op.N).Wait(c.w.RootCtx)
 			evReturn(p.ID, actor, OpPause, op.N, nil)
+		case OpProbe:
+			evInvoke(p.ID, actor, OpProbe, 0, 0)
+			ctx := c.cs.Context()
+			tm, ok := grpctunnel.TunnelMetadataFromOutgoingContext(ctx)
+			tc := grpctunnel.TunnelChannelFromContext(ctx)
+			first := tm.Copy()
+			for k, vs := range tm {
+				for i := range vs {
+					vs[i] = "MUTATED-BY-CALLER-" + strconv.Itoa(p.ID)
+				}
+				tm[k] = vs
+			}
+			tm["added-by-caller"] = []string{strconv.Itoa(p.ID)}
+			simrt.Yield(simrt.ClassApp)
+			tm2, ok2 := grpctunnel.TunnelMetadataFromOutgoingContext(ctx)
+			evReturn(p.ID, actor, OpProbe, 0, &OpResult{Extra: map[string]any{"tunnel_md": first, "tunnel_md_ok": ok, "tunnel_md_again": tm2.Copy(), "tunnel_md_again_ok": ok2, "tunnel_chan": tc, "chan_target": p.Res.ChanTarget}})
 		case OpReadTargets:
 			evInvoke(p.ID, actor, OpReadTargets, 0, 0)
 			r := p.Res
